@@ -170,6 +170,7 @@ _APPROX = {
     'RADIANS': math.radians, 'DEGREES': math.degrees,
     'LOG': lambda x, b: math.log(x) / math.log(b),
     'ATAN2': lambda x, y: math.atan2(y, x),
+    'FACT': lambda x: float(math.factorial(int(x))),
 }
 
 
